@@ -44,6 +44,7 @@ type Task struct {
 	dying  bool
 	client bool
 	hits   int
+	delays int // window delays already spent on this task
 
 	blockedSince time.Time // first moment the task was found disabled (zero: not blocked)
 	blockedStep  int       // scheduler step at that moment (orders tasks blocked at the same instant)
@@ -87,6 +88,12 @@ type Sim struct {
 	preSet        []preemptPoint
 	firedPre      []preemptPoint
 	pSwitchNum    int // scheduler picks a non-default task with probability pSwitchNum/100
+	// Window delays: a task that has just given up a lock ("unlocked" sites) is, at a per-run subset of those sites
+	// (1 in pDelayDen, a pure function of the seed and the site), held back for delayFor of simulated time while every
+	// other task runs on. Uniform preemption almost never keeps a task parked long enough for another task to finish
+	// a whole critical section in the gap between two of its own; this does.
+	pDelayDen int
+	delayFor  time.Duration
 	pStallNum     int // probability (per 1000) that an enabled task is stalled for a quantum
 	writerPending bool
 
@@ -266,6 +273,15 @@ func (s *Sim) Hit(site int) {
 			s.park(t, kCrash, site)
 			return
 		}
+	}
+	if s.pDelayDen > 0 && t.delays < 2 && site >= 0 && site < len(verifhook.Sites) && verifhook.Sites[site].Kind == "unlocked" &&
+		mix64(s.seed^0xd1a7, verifhook.Sites[site].File, uint64(verifhook.Sites[site].Line))%uint64(s.pDelayDen) == 0 {
+		t.delays++
+		t.stallUntil = time.Now().Add(s.delayFor)
+		s.stats["delay-after-unlock"]++
+		s.tracef("delay %s for %v after unlock @%s", shortKey(t.Key), s.delayFor, s.siteStr(site))
+		s.park(t, kHit, site)
+		return
 	}
 	if s.isCurrent(t) {
 		if !s.shouldPreempt(t) {
